@@ -54,10 +54,18 @@ Obligation names (prefix = function; what a VIOLATION reports):
  read_dictionary_page.  page_bytes.*  count_is_header_num_values  decodes_whole_page_as_plain  returns_the_decoded_values
       non_plain_dictionary_page_raises
  + the engine's own safety obligations (<func>.no_attr_of_None@L.., slice_start_nonnegative, allocation_size_nonnegative, ...).
-Findings.  Twelve defects of /repo are re-derived / found here (contracts/findings.jsonl, ids C03-P-*, each replayed natively by
-tools/c03pages_native.py).  Every run carries the union of their INPUT REGIONS; an obligation that is REFUTED is posed a second time with
+Findings.  Twelve defects of /repo were re-derived / found here (contracts/findings.jsonl, ids C03-P-*, each replayed natively by
+tools/c03pages_native.py); three of them are repaired in /repo (fixed-C03-v1-dict-boolean-width-byte efe7e45, fixed-C03-v1-rle-boolean-
+length-prefix c8ef5ea, fixed-C03-v1-bit-packed-levels f1984b1: their obligations are plain PROVED obligations again, reverting a fix is a
+canary).  Every run carries the union of the INPUT REGIONS of the open findings; an obligation that is REFUTED is posed a second time with
 the region excluded under `<name>[outside the regions of the recorded findings]` - that one is PROVED on the unchanged tree, so every
 counter-model lies inside a recorded finding, and a change that breaks the same obligation elsewhere is a VIOLATION of the companion.
+C13 (part "read_col_mask", props/_pagemask.py): run `read_col[values, row_filter mask]` - the caller's boolean row mask of the row group:
+count(a, b) = mask_true_count = True entries of mask[a:b] (additive, 0 <= count <= b - a: instances only).  Invariant in addition:
+index_off == VS(k) (mask cursor) and num == count(0, VS(k)) (output cursor of the FILTERED output).  Obligations:
+mask.window_is_the_rows_of_the_page, mask.page_skipped_only_if_no_row_selected, data_page.filtered_rows_are_next_output_window,
+data_page.kept_values_are_the_selected_values_of_the_page_in_order, data_page.null_positions_get_null, dictionary routing,
+data_page_v2.callsite.page_window_of_the_mask_is_identified, exit.all_selected_rows_written_no_overrun; findings C13-P-* (3).
 A source shape the script does not model gives `<run>.out_of_reach` = unknown (never a violation).
 """
 import ast
@@ -2103,9 +2111,8 @@ def run_read_col(ctx, funcs, timeout, mode, any_sizes=False, mask=False):
         p.pc += [nn >= 0, nn <= pg.nv, z3.Implies(z3.Or(S.required, skip), nn == 0), CNT(lev.aid, S.max_def) == pg.nv - nn]
         set_content(p, vals, ("page_values", k))
         if mask:
-            # input regions of the recorded findings: a page with nulls (mask cursor advances by the non-null count, emptiness test on the
-            # wrong window); a page without a selected row (output cursor advances, mask cursor does not)
-            p.ghost["region"] = z3.Or(p.ghost.get("region", z3.BoolVal(False)), nn > 0, PC(C.VS(k), C.VS(k) + pg.nv) == 0)
+            # v1 page under a row mask: both recorded defects are repaired in /repo (e953da1) - nothing may hide behind a region here
+            p.ghost["region"] = None
         emit(p, kind="page_v1", k=k, nn=nn, lev=lev, vals=vals, skip=skip, line=node.lineno)
         # contract: read_data_page.returns.* / values.returned_length_is_num_values_minus_num_nulls
         return outs + [(p, Tup([Opt(nn == 0, Custom(Arr(lev))), NONE, Custom(Arr(vals))]))]
@@ -2283,10 +2290,14 @@ def run_read_col(ctx, funcs, timeout, mode, any_sizes=False, mask=False):
                            "a page that does not fit into what is left of the output (pages declaring more values than the row group has "
                            "rows) never gets through the loop body: numpy's length checks raise; nothing is written truncated")
             return
-        for name, g in invariant(eng, r, k + 1):
-            eng.oblige(r, f"{fn}.page_loop.invariant_preserved[{name}]", "inv", g, st)
         evs = r.ghost.get("ev", [])
         kinds = [e["kind"] for e in evs]
+        # row-mask run: the obligations are posed per kind of the arbitrary page (case split on ph.type), so that a repaired branch can
+        # never hide behind the finding recorded for another one
+        split = ("[v1 page]" if "page_v1" in kinds else "[v2 page]" if "page_v2" in kinds else "[dictionary page]" if "dict_read" in kinds
+                 else "[other page]") if mask else ""
+        for name, g in invariant(eng, r, k + 1):
+            eng.oblige(r, f"{fn}.page_loop.invariant_preserved[{name}]{split}", "inv", g, st)
         stores = [e for e in evs if e["kind"] == "store" and e["tgt"].root is C.assign]
         p0 = C.page(z3.IntVal(0))
         if "dict_read" in kinds:
@@ -2368,14 +2379,14 @@ def run_read_col(ctx, funcs, timeout, mode, any_sizes=False, mask=False):
         p0 = C.page(z3.IntVal(0))
         is_dict = in_set(pg.enc, DICT_ENCS)
         mw = [e["win"] for e in evs if e["kind"] == "mask_window"]
-        eng.oblige(r, fn + ".mask.window_is_the_rows_of_the_page", "post",
+        eng.oblige(r, fn + ".mask.window_is_the_rows_of_the_page[v1 page]", "post",
                    z3.And(z3.BoolVal(bool(mw)), *[z3.And(w.a_raw == lo, w.b_raw == hi) for w in mw]), st,
                    "every slice of the row mask taken for page k is row_filter[VS(k) : VS(k) + num_values]: the rows of exactly this page")
         if not stores:
-            eng.oblige(r, fn + ".mask.page_skipped_only_if_no_row_selected", "post", pw == 0, st,
+            eng.oblige(r, fn + ".mask.page_skipped_only_if_no_row_selected[v1 page]", "post", pw == 0, st,
                        "a page is passed over without writing only when its window of the mask has no True entry")
             return
-        eng.oblige(r, fn + ".data_page.filtered_rows_are_next_output_window", "post",
+        eng.oblige(r, fn + ".data_page.filtered_rows_are_next_output_window[v1 page]", "post",
                    z3.And(*[z3.And(e["tgt"].lo_raw == out_lo, e["tgt"].hi_raw == out_lo + pw, e["tgt"].off == out_lo, e["tgt"].n == pw)
                             for e in stores]), st,
                    "the kept rows of page k go to assign[SEL(k) : SEL(k) + count(window)], SEL(k) = selected rows before the page: no gap, "
@@ -2407,7 +2418,7 @@ def run_read_col(ctx, funcs, timeout, mode, any_sizes=False, mask=False):
                            z3.If(nn == 0, z3.BoolVal(c[3] is None and v["sel"] == ("all",)),
                                  z3.BoolVal(by_def and is_flev_mask(v["sel"], "=="))),
                            z3.BoolVal(flev is None) if c[3] is None else (win_ok(filt(flev)[2]) if flev is not None else z3.BoolVal(False)))
-        eng.oblige(r, fn + ".data_page.kept_values_are_the_selected_values_of_the_page_in_order", "post", g, st,
+        eng.oblige(r, fn + ".data_page.kept_values_are_the_selected_values_of_the_page_in_order[v1 page]", "post", g, st,
                    "exactly one store of values: the page's values at the selected (and defined) positions of ITS mask window, in order, into "
                    "the defined positions of the kept rows")
         mask_store = any(e["tgt"].role == "mask" and e["sel"] == ("all",) and isinstance(unopt(e["src"]), Custom)
